@@ -8,6 +8,7 @@ C06 Q1–Q2, C07 A3, C15 U5, C03 R1–R2, C16 I3), and linear discharges of E1.
 """
 import ast
 import itertools
+from fractions import Fraction
 
 from . import AnalysisError
 from .db import Func, Cls, unparse, own_nodes
@@ -649,6 +650,7 @@ class Engine:
             s2 = s.copy()
             if fr.func is not None and t.id in fr.func.declared_global:
                 s2.epoch += 1
+                s2.env["$global:" + t.id] = v          # what this path has bound the module variable to (read by rules only)
                 return [s2]
             s2.env[t.id] = v
             return [s2]
@@ -2716,6 +2718,14 @@ class Engine:
             if len(args) == 1:
                 self.origin[t] = ("str", args[0])
             return [(s, Unk(t))]
+        if short == "round" and len(args) == 1 and isinstance(args[0], Num) and args[0].lin.is_const():
+            # Python's round(): half to even, on the exact rational
+            import math
+            q = args[0].lin.k
+            fl = math.floor(q)
+            d = q - fl
+            r_ = fl if d < Fraction(1, 2) else (fl + 1 if d > Fraction(1, 2) else (fl if fl % 2 == 0 else fl + 1))
+            return [(s, Num(Lin.const(r_)))]
         if short == "dict" and not args and not starred_unknown:
             # dict(a=x, b=y) / dict(): a dict whose entries are known (usable as **kwargs, see e_Call)
             return [(s, Obj(("kwdict", next(self.counter)), "builtins.dict", dict(kwargs)))]
